@@ -367,6 +367,37 @@ func canonJSONText(b []byte, unordered bool) (string, error) {
 	return sb.String(), nil
 }
 
+// big maps: n keys sharing a prefix of p bytes (digits, so that integer key kinds can hold them), values = index
+func bigMapKeys(n, p int, kind string) []string {
+	prefix := ""
+	for i := 0; i < p; i++ {
+		prefix += string(rune('1' + (i*3)%8))
+	}
+	keys := make([]string, n)
+	for i := 0; i < n; i++ {
+		suf := fmt.Sprint((i*7919 + 13) % 100003)
+		if kind == "str" || kind == "txt" {
+			if i%3 == 0 {
+				suf = "k" + suf
+			}
+		}
+		keys[i] = prefix + suf
+	}
+	return keys
+}
+
+func init() { bigMapHook = buildBigMap }
+
+func buildBigMap(t, v map[string]interface{}) reflect.Value {
+	rt := goType(t)
+	kind := sstr(t["key"])
+	m := reflect.MakeMap(rt)
+	for i, k := range bigMapKeys(intOf(v["n"]), intOf(v["p"]), kind) {
+		m.SetMapIndex(buildKey(kind, k), reflect.ValueOf(i))
+	}
+	return m
+}
+
 // ---- expected text from the specification's document ----
 
 func stdScalar(v interface{}, html bool) string {
@@ -425,6 +456,23 @@ func renderOut(sb *strings.Builder, d map[string]interface{}, html bool) {
 			sb.WriteString(stdScalar(sstr(rec(e)["k"]), html))
 			sb.WriteByte(':')
 			renderOut(sb, rec(rec(e)["v"]), html)
+		}
+		sb.WriteByte('}')
+	case "bm":
+		keys := bigMapKeys(intOf(d["n"]), intOf(d["p"]), sstr(d["key"]))
+		idx := map[string]int{}
+		for i, k := range keys {
+			idx[k] = i
+		}
+		sort.Strings(keys)
+		sb.WriteByte('{')
+		for i, k := range keys {
+			if i > 0 {
+				sb.WriteByte(',')
+			}
+			sb.WriteString(stdScalar(k, html))
+			sb.WriteByte(':')
+			sb.WriteString(fmt.Sprint(idx[k]))
 		}
 		sb.WriteByte('}')
 	case "x":
@@ -499,6 +547,8 @@ func valSig(v map[string]interface{}) string {
 		return sstr(v["c"])
 	case "raw":
 		return "raw(" + docSig(rec(v["d"])) + ")"
+	case "bm":
+		return fmt.Sprintf("bigmap(n=%d,prefix=%d)", intOf(v["n"]), intOf(v["p"]))
 	case "p":
 		return "&" + valSig(rec(v["e"]))
 	case "i":
@@ -579,6 +629,8 @@ func emitFeatures(t, v map[string]interface{}, top string, o map[string]interfac
 			}
 		case "raw":
 			f["v_raw_"+docSig(rec(v["d"]))] = true
+		case "bm":
+			f["v_bigmap"] = true
 		}
 	}
 	walkT(t)
